@@ -86,6 +86,24 @@ func compare(r *ev.Run, layer, desc string, s *Spend, policy bool) bool {
 	r.Eval(1)
 	r.Trace(1)
 	if !panicked && ok == (ref == "") {
+		// signature families: the verdict does not depend on a signature cache
+		// shared between verifications (mempool acceptance, then block validation)
+		if strings.HasPrefix(layer, "L3") {
+			cache := txscript.NewSigCache(16)
+			for pass := 1; pass <= 2; pass++ {
+				okc, errc, pc := runBtcdWith(s, cache)
+				if okc != ok || pc {
+					sev := "consensus"
+					if policy {
+						sev = "policy"
+					}
+					r.Violation(fmt.Sprintf("%s/%s/sigcache/plain=%s/cached-pass%d=%s", sev, layer, btcdClass(ok, errStr, false), pass, btcdClass(okc, errc, pc)),
+						fmt.Sprintf("%s: verdict without a signature cache %s(%s), verification #%d with a shared SigCache %s(%s); flags=%s pkScript=[%s] scriptSig=[%s] witness=%d items", desc, btcdClass(ok, errStr, false), errStr, pass, btcdClass(okc, errc, pc), errc,
+							flagString(s.Flags), disasm(s.PrevOuts[s.Idx].PkScript), disasm(s.Tx.TxIn[s.Idx].SignatureScript), len(s.Tx.TxIn[s.Idx].Witness)), s.toReplay(layer, desc))
+					break
+				}
+			}
+		}
 		return ref == ""
 	}
 	// A badly broken engine can disagree on millions of cases: fully triage only the
